@@ -39,7 +39,7 @@ type mModel struct {
 }
 
 var (
-	c11Roots    = []string{"/", "/a", "/a/", "/a/b", "/a/b/", "/a/{x}", "/a/{x}/b", "/a/{y}/c", "/ab", "/{z}", "/u", "/u/", "/u/{a}", "/users/{id}/a", "/users/{id}/b", "/users", "/{p}/{q}", ""}
+	c11Roots    = []string{"/", "/a", "/a/", "/a/b", "/a/b/", "/a/{x}", "/a/{y}", "/a/{x}/b", "/a/{y}/c", "/u/{b}", "/ab", "/{z}", "/u", "/u/", "/u/{a}", "/users/{id}/a", "/users/{id}/b", "/users", "/{p}/{q}", ""}
 	c11Patterns = []string{"/static/", "/health", "/files/", "/h1", "/h2/", "/static/img/"}
 	c11Paths    = []string{"", "/", "/x", "/{id}", "/x/{id}", "/{id}/y", "x"}
 )
@@ -188,7 +188,7 @@ func respSig(o *rt.Outcome) string {
 
 func c11(ctx *core.Ctx) {
 	quietLogs()
-	ctx.Rule("generated histories of 4-20 operations over {Add, Remove, Route, RemoveRoute, Handle, HandleWithFilter} on a root-path pool built to collide (/, '', /a, /a/, /a/b, /a/{x}, /a/{x}/b, /a/{y}/c, /ab, /{z}, /u, /u/, /u/{a}, /users/{id}/a, /users/{id}/b, /{p}/{q} ...), dynamic and static services, duplicate (method,path) routes with different Produces, both routers, with and without the OPTIONS filter. After EVERY operation a fresh container is built from the model (new objects, same order) and ~250 probe requests (hits, near misses, handler patterns, strays; GET/POST/OPTIONS/DELETE) are answered via ServeHTTP and Dispatch by both; complete responses must be equal. Add/Handle must not panic. Non-trivial = a history prefix containing a Remove/RemoveRoute or >= 2 services; distinct by (operation kind, number of services, root-on-'/' present, handlers present, router).")
+	ctx.Rule("generated histories of 4-20 operations over {Add, Remove (also repeated), Route, RemoveRoute (also of a route that is not there), Handle, HandleWithFilter} on a root-path pool built to collide (/, '', /a, /a/, /a/b, /a/{x}, /a/{x}/b, /a/{y}/c, /ab, /{z}, /u, /u/, /u/{a}, /users/{id}/a, /users/{id}/b, /{p}/{q} ...), dynamic and static services, duplicate (method,path) routes with different Produces, both routers, with and without the OPTIONS filter. After EVERY operation a fresh container is built from the model (new objects, same order) and ~250 probe requests (hits, near misses, handler patterns, strays; GET/POST/OPTIONS/DELETE) are answered via ServeHTTP and Dispatch by both; complete responses must be equal. Add/Handle must not panic. Non-trivial = a history prefix containing a Remove/RemoveRoute or >= 2 services; distinct by (operation kind, number of services, root-on-'/' present, handlers present, router).")
 	ctx.Assume("histories never add a duplicate root path (the library exits by contract) and never register a handler pattern twice")
 	hists := ctx.N(250, 20000)
 	nextID := 0
@@ -226,6 +226,13 @@ func c11(ctx *core.Ctx) {
 					for _, s := range m.Svcs {
 						if s.Dynamic && len(s.Routes) > 0 {
 							kind = "RemoveRoute"
+						}
+					}
+					if kind == "" || r.Chance(1, 5) {
+						for _, s := range m.Svcs {
+							if s.Dynamic {
+								kind = "RemoveRouteMissing"
+							}
 						}
 					}
 				default:
@@ -283,6 +290,13 @@ func c11(ctx *core.Ctx) {
 					if err := c.Remove(ws); err != nil {
 						panic(err)
 					}
+					if r.Chance(1, 4) {
+						// a repeated clean-up: removing what is no longer registered changes nothing
+						opsLog = append(opsLog, desc+" again")
+						if err := c.Remove(ws); err != nil {
+							panic(err)
+						}
+					}
 				case "Route":
 					s := m.Svcs[r.Intn(len(m.Svcs))]
 					nextID++
@@ -318,6 +332,20 @@ func c11(ctx *core.Ctx) {
 					}
 					s.Routes = keep
 					if err := s.ws.RemoveRoute(fp, victim.Method); err != nil {
+						panic(err)
+					}
+				case "RemoveRouteMissing":
+					var cands []*mSvc
+					for _, s := range m.Svcs {
+						if s.Dynamic {
+							cands = append(cands, s)
+						}
+					}
+					s := cands[r.Intn(len(cands))]
+					fp := fullPath(s.Root, "/no-such-route")
+					desc = fmt.Sprintf("RemoveRoute(%q, %q, GET) [not registered; %d routes]", s.Root, fp, len(s.Routes))
+					opsLog = append(opsLog, desc)
+					if err := s.ws.RemoveRoute(fp, "GET"); err != nil {
 						panic(err)
 					}
 				case "Handle":
